@@ -5,7 +5,7 @@ from __future__ import annotations
 
 import ast
 
-STYLES = ("asis", "compact", "spaced", "trailing", "multiline", "parens", "quotes")
+STYLES = ("asis", "compact", "spaced", "trailing", "multiline", "parens", "quotes", "lambda", "ctor")
 
 
 def renderings(expr, styles=STYLES):
@@ -25,7 +25,23 @@ def renderings(expr, styles=STYLES):
 def render(expr, style):
     if style == "asis":
         return expr
+    if style == "lambda":
+        # the value comes out of a call that is no constructor call: there is no display / constructor node to edit
+        return "(lambda: %s)()" % expr
     node = ast.parse(expr, mode="eval").body
+    if style == "ctor":
+        # computed spelling of a display through the builtin constructor
+        if isinstance(node, ast.List):
+            return "list((%s))" % "".join(ast.unparse(e) + ", " for e in node.elts)
+        if isinstance(node, ast.Tuple):
+            return "tuple([%s])" % ", ".join(ast.unparse(e) for e in node.elts)
+        if isinstance(node, ast.Set):
+            return "set([%s])" % ", ".join(ast.unparse(e) for e in node.elts)
+        if isinstance(node, ast.Dict):
+            if node.keys and all(isinstance(k, ast.Constant) and isinstance(k.value, str) and k.value.isidentifier() for k in node.keys):
+                return "dict(%s)" % ", ".join("%s=%s" % (k.value, ast.unparse(v)) for k, v in zip(node.keys, node.values))
+            return "dict([%s])" % ", ".join("(%s, %s)" % (ast.unparse(k), ast.unparse(v)) for k, v in zip(node.keys, node.values))
+        raise ValueError("no constructor spelling")
     txt = _r(node, style, 1)
     ast.parse(txt, mode="eval")
     return txt
